@@ -4,14 +4,14 @@ INV = """invariant
     infosets@ == inf_mid,
     search_queue@.len() == q0.len() + it.index@,
     search_queue@.take(q0.len() as int) == q0,
-    forall|i: int| 0 <= i < it.index@ ==> #[trigger] search_queue@[q0.len() + i] == (&%(kids)s@[i], %(reach)s),"""
+    forall|i: int| 0 <= i < it.index@ ==> (#[trigger] search_queue@[q0.len() + i]).0 == &%(kids)s@[i] && %(reach)s,"""
 UNIT = dict(
     id="c01_optdev_collect",
-    prelude=["floats.rs", "std_ext.rs", "infoset_traits.rs"],
-    canary_use="broadcast use fl; ax_obeys();",
+    prelude=["floats.rs", "ideal.rs", "std_ext.rs", "infoset_traits.rs"],
+    canary_use="broadcast use fl; broadcast use ideal; ax_obeys(); ax_rv_lits();",
     expect=[("src/lib.rs", r"trait PlayerInfoset \{\s*fn num_actions\(&self\) -> usize;\s*fn prev_infoset\(&self\) -> Option<usize>;\s*\}")],
     assumptions=[
-        "uninterpreted floats",
+        "idealised-real float mode for the reach products (harmless reorderings of operands do not disturb the proof)",
         "BLOCK: ONE iteration of the first pass of optimal_deviations (body of `while let Some((node, reach)) = search_queue.pop()`), free variables as parameters: a STEP contract -- that the pass as a whole visits exactly the nodes reachable under the opponent's strategy is the work-list argument, not proved here",
         "wf: infoset indices in range, probability vectors as long as the child lists (from_root, assumed); pending counters do not overflow usize",
     ],
@@ -23,13 +23,16 @@ UNIT = dict(
         dict(file="src/lib.rs", path="struct Player", pub_fields=True),
         dict(file="src/regret.rs", path="struct DeviationInfo", pub_fields=True),
         dict(raw="""pub open spec fn own(pl: Player, p1: bool) -> bool { match pl.num { PlayerNum::One => p1, PlayerNum::Two => !p1 } }
-// the opponent's positive-probability children, each with reach multiplied by its probability, in order
-pub open spec fn push_pos(q: Seq<(&Node, f64)>, kids: Seq<Node>, probs: Seq<f64>, reach: f64, k: int) -> Seq<(&Node, f64)>
+// q is q0 followed by the opponent's positive-probability children among the first k, in order, each
+// with reach multiplied by its probability
+pub open spec fn pushed_pos(q0: Seq<(&Node, f64)>, q: Seq<(&Node, f64)>, kids: Seq<Node>, probs: Seq<f64>, reach: f64, k: int) -> bool
     decreases k
 {
-    if k <= 0 { q } else {
-        let prev = push_pos(q, kids, probs, reach, k - 1);
-        if fgt(probs[k - 1], 0.0f64) { prev.push((&kids[k - 1], fmul(probs[k - 1], reach))) } else { prev }
+    if k <= 0 { q == q0 } else if rv(probs[k - 1]) > 0real {
+        q.len() > 0 && q.last().0 == &kids[k - 1] && rv(q.last().1) == rv(probs[k - 1]) * rv(reach)
+            && pushed_pos(q0, q.drop_last(), kids, probs, reach, k - 1)
+    } else {
+        pushed_pos(q0, q, kids, probs, reach, k - 1)
     }
 }"""),
         dict(file="src/regret.rs", path="fn optimal_deviations", loop=0,
@@ -59,8 +62,8 @@ ensures
         Node::Chance(ch) => out.0@ == infosets@
             && out.1@.len() == search_queue@.len() + ch.outcomes@.len()
             && out.1@.take(search_queue@.len() as int) == search_queue@
-            && forall|i: int| 0 <= i < ch.outcomes@.len() ==> #[trigger] out.1@[search_queue@.len() + i]
-                == (&ch.outcomes@[i], fmul(chance_info@[ch.infoset as int].probs_view()[i], reach)),
+            && forall|i: int| 0 <= i < ch.outcomes@.len() ==> (#[trigger] out.1@[search_queue@.len() + i]).0 == &ch.outcomes@[i]
+                && rv(out.1@[search_queue@.len() + i].1) == rv(chance_info@[ch.infoset as int].probs_view()[i]) * rv(reach),
         Node::Player(pl) => if own(pl, PLAYER_ONE) {
             // the deviating player's own node: recorded once under ITS infoset with the opponent/chance
             // reach, counted once as pending for the previous infoset, every action searched with the SAME reach
@@ -75,28 +78,30 @@ ensures
             && forall|j: int| 0 <= j < infosets@.len() ==> #[trigger] out.0@[j].max_utility == infosets@[j].max_utility
             && out.1@.len() == search_queue@.len() + pl.actions@.len()
             && out.1@.take(search_queue@.len() as int) == search_queue@
-            && forall|i: int| 0 <= i < pl.actions@.len() ==> #[trigger] out.1@[search_queue@.len() + i] == (&pl.actions@[i], reach)
+            && forall|i: int| 0 <= i < pl.actions@.len() ==> (#[trigger] out.1@[search_queue@.len() + i]).0 == &pl.actions@[i] && out.1@[search_queue@.len() + i].1 == reach
         } else {
             // the opponent's node: only positive-probability actions, reach x probability
             out.0@ == infosets@
-            && out.1@ == push_pos(search_queue@, pl.actions@, asref_view::<S, [f64]>(&strat_info@[pl.infoset as int])@, reach, pl.actions@.len() as int)
+            && pushed_pos(search_queue@, out.1@, pl.actions@, asref_view::<S, [f64]>(&strat_info@[pl.infoset as int])@, reach, pl.actions@.len() as int)
         },
     }, // @ob C01.V.optimal_deviations.collect_step""",
-             entry="broadcast use fl;\nproof { ax_obeys(); }\nlet ghost inf0 = infosets@;\nlet ghost q0 = search_queue@;",
+             entry="broadcast use fl; broadcast use ideal;\nproof { ax_obeys(); ax_rv_lits(); }\nlet ghost inf0 = infosets@;\nlet ghost q0 = search_queue@;",
              loops={
                  0: dict(kind="for", binder="it", before="let ghost inf_mid = infosets@;",
-                         head=INV % dict(n="chance.outcomes@.len()", kids="chance.outcomes", reach="fmul(probs@[i], reach)")
+                         head=INV % dict(n="chance.outcomes@.len()", kids="chance.outcomes", reach="rv(search_queue@[q0.len() + i].1) == rv(probs@[i]) * rv(reach)")
                               + "\n    probs@.len() == chance.outcomes@.len(),",
-                         body_start="broadcast use fl;\nproof { ax_obeys(); }"),
+                         body_start="broadcast use fl; broadcast use ideal;\nproof { ax_obeys(); ax_rv_lits(); }",
+                         body_end="proof { assert(rv(reach) * rv(*prob) == rv(*prob) * rv(reach)) by(nonlinear_arith); }"),
                  1: dict(kind="for", binder="it", before="let ghost inf_mid = infosets@;",
-                         head=INV % dict(n="player.actions@.len()", kids="player.actions", reach="reach"),
-                         body_start="broadcast use fl;\nproof { ax_obeys(); }"),
+                         head=INV % dict(n="player.actions@.len()", kids="player.actions", reach="search_queue@[q0.len() + i].1 == reach"),
+                         body_start="broadcast use fl; broadcast use ideal;\nproof { ax_obeys(); ax_rv_lits(); }"),
                  2: dict(kind="for", binder="it", before="let ghost inf_mid = infosets@;",
                          head="""invariant
     0 <= it.index@ <= player.actions@.len(), probs@.len() == player.actions@.len(),
     infosets@ == inf_mid,
-    search_queue@ == push_pos(q0, player.actions@, probs@, reach, it.index@ as int),""",
-                         body_start="broadcast use fl;\nproof { ax_obeys(); }"),
+    pushed_pos(q0, search_queue@, player.actions@, probs@, reach, it.index@ as int),""",
+                         body_start="broadcast use fl; broadcast use ideal;\nproof { ax_obeys(); ax_rv_lits(); }\nlet ghost qb = search_queue@;",
+                         body_end="proof { assert(rv(reach) * rv(*prob) == rv(*prob) * rv(reach)) by(nonlinear_arith); if rv(*prob) > 0real { assert(search_queue@.drop_last() =~= qb); } }"),
              }),
     ],
 )
